@@ -309,6 +309,26 @@ fn nested(rng: &mut ChaCha8Rng) -> (String, &'static str) {
     }
 }
 
+/// Corpus for the Miri layer: short inputs of every class except the known-bad region.
+pub fn miri_corpus(seed: u64, n: usize) -> Vec<String> {
+    use rand::SeedableRng;
+    let mut rng = ChaCha8Rng::seed_from_u64(seed ^ 0x4d49_5249);
+    let mut out = vec![];
+    while out.len() < n {
+        let text = match rng.gen_range(0..10) {
+            0..=2 => valid_program(&mut rng),
+            3..=6 => mutate(&valid_program(&mut rng), &mut rng).0,
+            7 => noise(&mut rng),
+            _ => nested(&mut rng).0,
+        };
+        // Miri is ~10^4 times slower than native code: short inputs, no large iterations
+        if text.len() <= 400 && !large_iteration(&text) && !wide_integer_range(&text) && !text.contains("100000") && !text.contains("4000") {
+            out.push(text);
+        }
+    }
+    out
+}
+
 fn known_bad(rng: &mut ChaCha8Rng) -> (String, &'static str) {
     match rng.gen_range(0..4) {
         3 => ("min b\ns.t.\n    k0: (b + c) * -3 = -2\ndefine\n    b as IntegerRange(-3, 100000)\n    c as IntegerRange(-2147483647, 2)\n".to_string(), "known-bad"),
